@@ -12,9 +12,10 @@ CA, CAA, CB, CFB, CFA = 10, 11, 12, 13, 14
 SA, SFA = 15, 16
 MA, MAA, MFA = 17, 18, 19
 RA, RFA, RFB = 20, 21, 22
+DC, DD = 23, 24
 NAMES = ["DomainS", "ComplexS", "StrandS", "MacrostateS", "ReactionS", "DomA", "DomAA", "DomB", "DomFailB",
          "DomFailA", "CplxA", "CplxAA", "CplxB", "CplxFailB", "CplxFailA", "StrandA", "StrandFailA",
-         "MacA", "MacAA", "MacFailA", "RxnA", "RxnFailA", "RxnFailB"]
+         "MacA", "MacAA", "MacFailA", "RxnA", "RxnFailA", "RxnFailB", "DomC", "DomD"]
 ALL = list(range(len(NAMES)))
 
 _ct = None
@@ -454,7 +455,7 @@ BAD_TEMPLATES = [([0, "+", 1], ")+("), ([0, 1], "."), ([0, "+", 1], "(+."), (["+
 
 def random_history(rng, length, classes=None, p_sub=0.3, weird=0.05):
     """classes: dict kind -> list of class indices to draw from (first = base class)"""
-    cl = {"D": [D, DA, DAA, DB, DFB, DFA], "C": [C, CA, CAA, CB, CFB, CFA], "S": [S, SA, SFA],
+    cl = {"D": [D, DA, DAA, DB, DFB, DFA, DC, DD], "C": [C, CA, CAA, CB, CFB, CFA], "S": [S, SA, SFA],
           "M": [M, MA, MAA, MFA], "R": [R, RA, RFA, RFB]}
     if classes:
         cl.update(classes)
